@@ -8,6 +8,8 @@ use crate::rng::{run_seed, Rng};
 
 pub const TAG_C05: u64 = 0xC05;
 pub const TAG_C08: u64 = 0xC08;
+/// run indices from here on denote long-text thread plans (Miri tier, thorough)
+pub const LONG_TEXT_RUN_BASE: u64 = 1 << 40;
 
 pub fn focus_of(property: &str) -> Focus {
     if property == "C05" {
@@ -22,10 +24,10 @@ pub fn plan_for(property: &str, seed: u64, run: u64, miri: bool) -> HistPlan {
     let tag = if focus == Focus::C05 { TAG_C05 } else { TAG_C08 } ^ if miri { 0x1000 } else { 0 };
     let mut rng = Rng::new(run_seed(seed, tag, run));
     let mut knobs = if miri { HistKnobs::miri() } else { HistKnobs::for_focus(focus) };
-    // long-text thread plans (1024+ characters) exist in the generator but are switched off: one
-    // such plan costs about seven minutes per Miri seed (measured), see DESIGN.md known limits
-    if miri && std::env::var("VERIF_MIRI_LONG_TEXTS").is_ok() && run % 8 == 7 {
+    if miri && run >= LONG_TEXT_RUN_BASE {
+        // long-text thread plans (1024+ characters): about a minute per Miri seed, thorough only
         knobs.long_thread_texts = true;
+        knobs.max_clients = 2;
     }
     if !miri {
         // soak runs: long histories on one object with short texts, so that anything that
